@@ -1,0 +1,14 @@
+//go:build verif && verif_par
+
+package strategy
+
+import (
+	"github.com/go-logr/logr"
+	corev1 "k8s.io/api/core/v1"
+	"sigs.k8s.io/controller-runtime/pkg/client"
+)
+
+// DeletePodSliceForVerif exposes the parallel clean-up deletion helper.
+func DeletePodSliceForVerif(c client.Client, logger logr.Logger, pods []*corev1.Pod) []error {
+	return deletePodSlice(c, logger, pods)
+}
